@@ -39,8 +39,62 @@ def case_st(draw, tier, mode):
     return c
 
 
+@st.composite
+def override_case(draw, tier, mode):
+    """An operator whose class overrides as_matrix, directly at the top of the expression."""
+    cap = 16 if tier == 'quick' else 28
+    G = gen.GenCtx(mode, cap=cap)
+    S = draw(gen.structure(mode, cap=cap, kinds=('leaf', 'tuple', 'dict', 'nested', 'stokes', 'related', 'related')))
+    ranks_ok = all(len(sh) >= 1 for sh, _ in St.leaves(S))
+    forms = ['id', 'hom', 'sum', 'bcol', 'inv']
+    if ranks_ok:
+        forms += ['diag', 'diag', 'diag_inv', 'diag_inv', 'ravel', 'reshape']
+    if S['t'] in ('tuple', 'list', 'dict'):
+        forms += ['bdiag', 'bdiag']
+        if gen.row_applicable(S):
+            forms += ['brow', 'brow']
+    if S['t'] == 'leaf' and ranks_ok:
+        forms += ['toeplitz', 'toeplitz']
+    form = draw(st.sampled_from(forms))
+    if form == 'id':
+        expr = {'k': 'id', 'in': S}
+    elif form == 'hom':
+        expr = gen.leaf_operand(draw, G, S, kind='hom')
+    elif form == 'diag':
+        expr = gen.g_diag(draw, G, S, zeros=draw(st.booleans()))
+    elif form == 'diag_inv':
+        expr = {'k': 'I', 'op': gen.g_diag(draw, G, S, zeros=draw(st.booleans()))}
+    elif form == 'sum':
+        a = gen.leaf_operand(draw, G, S, square=True)
+        expr = {'k': 'add', 'ops': [a, gen.leaf_operand(draw, G, S, square=True)], 'via': 'plus', 'tree': [0, 1]}
+    elif form == 'ravel':
+        expr = gen.g_ravel(draw, G, S)
+    elif form == 'reshape':
+        expr = gen.fix_reshape(gen.g_reshape(draw, G, S))
+    elif form == 'toeplitz':
+        expr = gen.g_toeplitz(draw, G, S)
+    elif form == 'bdiag':
+        expr = gen.g_block_diag(draw, G, S, 1)
+    elif form == 'brow':
+        expr = gen.g_block_row(draw, G, S, 1)
+    elif form == 'bcol':
+        expr = gen.g_block_col(draw, G, S, 1)
+    else:
+        r, _ = gen.invertible(draw, G, S)
+        expr = {'k': 'I', 'op': r}
+    if draw(st.integers(0, 3)) == 0:
+        expr = {'k': 'T', 'op': expr} if not _has_cg(expr) else expr
+    return {'defs': G.defs, 'expr': expr, 'probe': draw(st.lists(st.integers(0, 1000), min_size=8, max_size=8)),
+            'a': draw(st.sampled_from([1, -1, 2, 0.5, -0.25, 3])), 'b': draw(st.sampled_from([1, -2, 0.5, 0.75, -3])),
+            'generic': draw(st.integers(0, 2)) == 0}
+
+
+def _has_cg(expr):
+    return expr['k'] == 'I' and expr['op']['k'] in ('dense', 'toeplitz', 'block')
+
+
 def strategy(tier, mode):
-    return case_st(tier, mode)
+    return st.one_of(case_st(tier, mode), override_case(tier, mode))
 
 
 def check(case, mode):
